@@ -104,3 +104,75 @@ func remoteFacts(lf *leanFile) {
 	}
 	lf.def("seekSteps", "List String", leanStrList(sconds))
 }
+
+// referrersFlowFacts: the order in which Push / Delete / updateReferrersIndex touch the
+// manifest, the new index and the old index, and what happens when the old index cannot be
+// deleted (the C14 flow model's parameters).
+func referrersFlowFacts(lf *leanFile) {
+	const file = "registry/remote/repository.go"
+	// calls of interest in source order, and the calls nested in the `if` that tests the
+	// result of `probe`
+	scan := func(fd *ast.FuncDecl, interesting func(string) string, probe string) (order []string, nested []string) {
+		if fd == nil {
+			return nil, nil
+		}
+		ast.Inspect(fd.Body, func(n ast.Node) bool {
+			switch x := n.(type) {
+			case *ast.CallExpr:
+				if nm := interesting(exprString(x.Fun)); nm != "" {
+					order = append(order, nm)
+				}
+			case *ast.IfStmt:
+				if as, ok := x.Init.(*ast.AssignStmt); ok && len(as.Rhs) == 1 {
+					if c, ok := as.Rhs[0].(*ast.CallExpr); ok && interesting(exprString(c.Fun)) == probe {
+						ast.Inspect(x.Body, func(m ast.Node) bool {
+							if c2, ok := m.(*ast.CallExpr); ok {
+								if nm := interesting(exprString(c2.Fun)); nm != "" {
+									nested = append(nested, nm)
+								}
+							}
+							return true
+						})
+					}
+				}
+			}
+			return true
+		})
+		return
+	}
+	names := func(m map[string]string) func(string) string { return func(s string) string { return m[s] } }
+	// deleteWithIndexing
+	fd := funcDecl(file, "manifestStore", "deleteWithIndexing")
+	if fd == nil {
+		miss(file + ":deleteWithIndexing")
+	}
+	order, nested := scan(fd, names(map[string]string{"s.indexReferrersForDelete": "index", "s.repo.delete": "delete"}), "index")
+	lf.def("refDeleteCalls", "List String", leanStrList(order))
+	lf.def("refDeleteOnIndexError", "List String", leanStrList(nested))
+	usesCleanup := "false"
+	if fd != nil {
+		ast.Inspect(fd.Body, func(n ast.Node) bool {
+			if c, ok := n.(*ast.CallExpr); ok && strings.HasSuffix(exprString(c.Fun), ".IsReferrersIndexDelete") {
+				usesCleanup = "true"
+			}
+			return true
+		})
+	}
+	lf.def("refDeleteTestsCleanupError", "Bool", usesCleanup)
+	// pushWithIndexing
+	fd = funcDecl(file, "manifestStore", "pushWithIndexing")
+	if fd == nil {
+		miss(file + ":pushWithIndexing")
+	}
+	order, _ = scan(fd, names(map[string]string{"s.push": "push", "s.indexReferrersForPush": "index"}), "")
+	lf.def("refPushCalls", "List String", leanStrList(order))
+	// updateReferrersIndex: the update closure
+	fd = funcDecl(file, "manifestStore", "updateReferrersIndex")
+	if fd == nil {
+		miss(file + ":updateReferrersIndex")
+	}
+	order, nested = scan(fd, names(map[string]string{"s.push": "pushIndex", "pushIndex": "pushIndex", "s.repo.delete": "deleteOld",
+		"applyReferrerChanges": "apply", "s.repo.referrersFromIndex": "read"}), "deleteOld")
+	lf.def("refUpdateCalls", "List String", leanStrList(order))
+	lf.def("refUpdateOnDeleteError", "List String", leanStrList(nested))
+}
